@@ -57,9 +57,9 @@ def toEmfEntry (ops : FloatOps F) (txt : F → List Nat) (e : Entry F) : List Em
   e.map (toEmfItem ops txt)
 
 /-- an extra directive (`EmfBuilder::directive`). The spec's `Decl` has an optional unit and a
-high-resolution bit; serde prints `"Unit"` always and `"StorageResolution"` as 1 | 60 | absent.
-`unit = none` is sent as the unit named `None` (what `Unit::None` serialises to) — the JSON then
-differs from the spec's reading (member absent), see `extrasOk`. -/
+high-resolution bit; serde prints `"Unit"` always (`Unit::None` as the unit named `None`) and
+`"StorageResolution"` as 1 | 60 | absent. `unit = none` = `Unit::None`; resolution 60 (`Minute`, the same
+as absent for CloudWatch) is not expressible in `EmfSpec.Decl`. -/
 def toEmfExtra (d : Directive) : Emf.ExtraDirective where
   dimensions := d.dims
   metrics := d.metrics.map fun m =>
@@ -74,11 +74,6 @@ def toEmfCfg (cfg : Config) (sw : Switches) : Emf.Config where
   allowIgnored := cfg.allowIgnored
   extraDirectives := cfg.extra.map toEmfExtra
   validation := ⟨sw.skipUnique, sw.skipDimsExist, sw.skipNames⟩
-
-/-- every declaration of an extra directive names its unit (so that serde's `"Unit":…` is what the
-spec record says) -/
-def extrasOk (cfg : Config) : Bool :=
-  cfg.extra.all fun d => d.metrics.all fun m => m.unit.isSome
 
 /-- one `Format::format` / `format_with_sample_rate` (valid rate) call with a writer that never fails -/
 def toCall (ops : FloatOps F) (txt : F → List Nat) (mult : Option Nat) (nowMs : Nat) (e : Entry F) : Emf.Call where
@@ -143,6 +138,12 @@ def declJson (d : Decl) : JVal :=
 
 def dimsJson (dims : List (List Str)) : JVal := .arr (dims.map fun s => .arr (s.map .str))
 
+/-- a declaration inside an EXTRA directive, as serde prints `MetricDefinition`: `"Unit"` is always
+present, `Unit::None` (`unit = none`) is the unit named `None` -/
+def extraDeclJson (d : Decl) : JVal :=
+  .obj ([(bytes! "Name", JVal.str d.name), (bytes! "Unit", JVal.str (d.unit.getD (bytes! "None")))] ++
+    (if d.hires then [(bytes! "StorageResolution", JVal.num (bytes! "1"))] else []))
+
 /-- a directive the formatter writes itself (one per namespace) -/
 def nsDirectiveJson (d : Directive) : JVal :=
   .obj [(bytes! "Namespace", .str d.ns), (bytes! "Dimensions", dimsJson d.dims),
@@ -150,7 +151,7 @@ def nsDirectiveJson (d : Directive) : JVal :=
 
 /-- an extra directive (serde field order) -/
 def extraDirectiveJson (d : Directive) : JVal :=
-  .obj [(bytes! "Dimensions", dimsJson d.dims), (bytes! "Metrics", .arr (d.metrics.map declJson)),
+  .obj [(bytes! "Dimensions", dimsJson d.dims), (bytes! "Metrics", .arr (d.metrics.map extraDeclJson)),
         (bytes! "Namespace", .str d.ns)]
 
 /-- The JSON object a record denotes. `nNs` = number of configured namespaces: the first `nNs`
@@ -187,12 +188,14 @@ def sameBag : List JVal → List JVal → Bool
 inductive Verdict where
   /-- both reject with the same bag of error kinds -/
   | bothReject (n : Nat)
-  /-- both accept and the lines denote the records; `n` = number of records -/
+  /-- both accept and the lines denote the records, IN THE ORDER of `emit`; `n` = number of records -/
   | bothAccept (n : Nat)
   | classDiffers (emf : String) (spec : String)
   | kindsDiffer (emf spec : List Nat)
   | unreadable (line : Nat)
   | recordsDiffer (nEmf nSpec : Nat)
+  /-- the same records, in another order than `emit` lists them -/
+  | orderDiffers (n : Nat)
   deriving Repr
 
 def Verdict.ok : Verdict → Bool
@@ -212,7 +215,8 @@ def compareWith (out : Emf.Result × List Nat) (cfg : Config) (sw : Switches) (o
     match lines.mapM readLine with
     | none => .unreadable ((lines.map readLine).findIdx (·.isNone))
     | some trees =>
-      if sameBag trees (rs.map (recordJson txt cfg.namespaces.length nowMs)) then .bothAccept rs.length
+      if beqList trees (rs.map (recordJson txt cfg.namespaces.length nowMs)) then .bothAccept rs.length
+      else if sameBag trees (rs.map (recordJson txt cfg.namespaces.length nowMs)) then .orderDiffers rs.length
       else .recordsDiffer trees.length rs.length
   | .validation _, .ok _ => .classDiffers "reject" "accept"
   | .ok, .error _ => .classDiffers "accept" "reject"
